@@ -90,6 +90,37 @@ def eval_atmos(row):
     return devs
 
 
+def eval_profile(case):
+    """specs/ei/Profiles.tla: MEEM on one whole-flight altitude profile - every index finite and non-negative."""
+    from AEIC.emissions.ei.pmnvol import PMnvol_MEEM
+    from AEIC.utils.standard_atmosphere import pressure_at_altitude_isa_bada4, temperature_at_altitude_isa_bada4
+
+    from .emis_common import load_emis_config, model
+
+    if 'edb' not in _prof:
+        load_emis_config({})
+        _prof['edb'] = model().edb
+    alts = np.array(case['alts'], float)
+    T = temperature_at_altitude_isa_bada4(alts)
+    P = np.asarray(pressure_at_altitude_isa_bada4(alts))
+    devs = []
+    for mach in (0.3, 0.78):
+        try:
+            gmd, mass, num = PMnvol_MEEM(_prof['edb'], alts.copy(), T, P, np.full(len(alts), mach))
+        except Exception as e:
+            return [(f'meem:raised-{type(e).__name__}', f'altitude profile {case["alts"]} m, Mach {mach}: raised {type(e).__name__}: {e}')]
+        for name, arr in (('gmd', gmd), ('mass', mass), ('number', num)):
+            a = np.asarray(arr, float)
+            if not (np.all(np.isfinite(a)) and np.all(a >= 0)):
+                devs.append((f'meem:{name}-not-finite-nonnegative:{"low-flight" if case["low"] else "profile"}', f'altitude profile {case["alts"]} m (top of the flight {max(case["alts"])} m), Mach {mach}: {name} indices {a.tolist()}'))
+        if devs:
+            break
+    return devs
+
+
+_prof: dict = {}
+
+
 def eval_case(job):
     warnings.simplefilter('ignore')
     kind, case = job
@@ -97,6 +128,8 @@ def eval_case(job):
     try:
         if kind == 'Atm':
             return eval_atmos(case)
+        if kind == 'Prof':
+            return eval_profile(case)
         if kind == 'Isa':
             from AEIC.utils.standard_atmosphere import (
                 altitude_from_pressure_isa_bada4,
@@ -332,7 +365,7 @@ def run(ctx: Ctx):
     ctx.rule = (
         'lattice cases per function (TLC-enumerated): ISA 0..26 km every 500 m; thrust categories for all calibration triples over {1,2,4,6} x 15 flows; '
         'sulfur 4 contents x 4 yields; HC/CO fit: calibration flows/indices as half-decade powers of ten x 11 evaluation flows (quick 24 057, thorough 180 224); '
-        'NOx regression: 6 318 calibration sets; FOA3 9 thrusts x 3 HC indices; ISA pressure ratio, FFM2 factor at Mach 0 / 0.4 / 0.8 / 0.95, HC/CO and NOx (humidity) ambient corrections at ISA and ISA+10 K as fixed-point numbers every 500 m up to 25 km (Atmos.tla); SCOPE11 11 smoke numbers x 4 modes x 2 engine types; speciation 4 modes; non-trivial = clamped / tie / non-monotone calibration / stratospheric'
+        'NOx regression: 6 318 calibration sets; FOA3 9 thrusts x 3 HC indices; ISA pressure ratio, FFM2 factor at Mach 0 / 0.4 / 0.8 / 0.95, HC/CO and NOx (humidity) ambient corrections at ISA and ISA+10 K as fixed-point numbers every 500 m up to 25 km (Atmos.tla); SCOPE11 11 smoke numbers x 4 modes x 2 engine types; MEEM on every altitude profile of 2..3 (4) points over 8 levels from the ground to 14 km (Profiles.tla); speciation 4 modes; non-trivial = clamped / tie / non-monotone calibration / stratospheric'
     )
     ctx.not_covered += [
         'the transcendental equations are decided as numbers to 2e-4 relative on the 500 m lattice (six-decimal fixed point in TLA+, specs/ei/Atmos.tla): a deviation below that is not seen; HC/CO and NOx ambient corrections at ISA and ISA+10 K only',
@@ -357,11 +390,19 @@ def run(ctx: Ctx):
     # the transcendental equations as numbers (six-decimal fixed point, specs/common/Fix.tla): one row per 500 m
     tlc.check(ctx, 'ei/Atmos', 'ei/MC_Atmos.cfg', workers=4)
     jobs += [('Atm', {'c': {'h': e['h']}, 'o': {}, **e}) for e in tlc.check(ctx, 'ei/Atmos', 'ei/Gen_Atmos.cfg', workers=1)['emitted']]
+    # whole-flight altitude profiles (MEEM looks at the top of the flight): every sequence of 2..3 (4) levels
+    tlc.check(ctx, 'ei/Profiles', 'ei/MC_Profiles.cfg', workers=4)
+    profs = tlc.check(ctx, 'ei/Profiles', 'ei/Gen_Profiles.cfg', workers=1, sub=None if ctx.quick else {'MaxLen = 3': 'MaxLen = 4'})['emitted']
+    seenp = set()
+    for e in profs:
+        if tuple(e['alts']) not in seenp:
+            seenp.add(tuple(e['alts']))
+            jobs.append(('Prof', {'c': {'alts': e['alts']}, 'o': {}, **e}))
     ctx.exhaustive = True
     ctx.log(f'evaluating {len(jobs)} lattice cases on the real functions')
     for (kind, case), devs in zip(jobs, pmap(eval_case, jobs)):
         o = case['o']
-        nt = kind == 'Atm' or (kind == 'Hc' and (o['rule'] != 'regular' or len(o['alts']) > 1)) or (kind == 'Isa' and case['c']['h'] > 11000) or kind in ('Cat', 'Nox', 'Foa', 'Sox', 'Scope')
+        nt = kind == 'Atm' or (kind == 'Prof' and case['low']) or (kind == 'Hc' and (o['rule'] != 'regular' or len(o['alts']) > 1)) or (kind == 'Isa' and case['c']['h'] > 11000) or kind in ('Cat', 'Nox', 'Foa', 'Sox', 'Scope')
         ctx.case_done((kind, case['c']), nontrivial=nt)
         if kind in ('Hc', 'Nox'):
             ctx.sample({'kind': kind, **case}, limit=4)
